@@ -5,9 +5,12 @@ import (
 	"errors"
 	"fmt"
 	"io"
+	"net"
+	"os"
 	"sort"
 	"strconv"
 	"sync"
+	"syscall"
 	"time"
 
 	"github.com/docker/docker/api/types"
@@ -81,6 +84,7 @@ type StreamInfo struct {
 	CancelObserved    bool `json:"cancel_observed"`
 	Closes            int  `json:"closes"`
 	ReadAfterClose    int  `json:"read_after_close"`
+	OpenAtReturn      bool `json:"open_at_return,omitempty"`
 	// CutClass classifies the cut offset, if the stream carries a cut fault:
 	// boundary | header | hdr_body | body
 	CutClass string `json:"cut_class,omitempty"`
@@ -170,6 +174,7 @@ type gate struct {
 type readGate struct {
 	ch     chan struct{}
 	stream int // index of the stream in Daemon.Streams
+	kind   int // 0 read, 1 close
 }
 
 // Daemon is the simulated Docker daemon plus API client.
@@ -651,6 +656,14 @@ func newSimStream(d *Daemon, id string, openIdx int, l Layout, follow bool, _ ma
 		s.readErr = context.DeadlineExceeded
 	case si.Kind == FaultReadError && si.ErrKind == "closed":
 		s.readErr = io.ErrClosedPipe
+	case si.Kind == FaultReadError && si.ErrKind == "reset":
+		// what a read on a TCP connection reports when the peer went away
+		s.readErr = &net.OpError{Op: "read", Net: "tcp", Err: os.NewSyscallError("read", syscall.ECONNRESET)}
+	case si.Kind == FaultReadError && si.ErrKind == "epipe":
+		s.readErr = &net.OpError{Op: "read", Net: "unix", Err: os.NewSyscallError("read", syscall.EPIPE)}
+	case si.Kind == FaultReadError && si.ErrKind == "canceled":
+		// a cancellation that is not the query's own (the daemon's side gave up)
+		s.readErr = fmt.Errorf("read %s: %w", id, context.Canceled)
 	case si.Kind == FaultReadError && si.ErrKind == "with_data":
 		s.errWithData = true
 	}
@@ -687,7 +700,12 @@ func (d *Daemon) ParkedReads() []*readGate {
 	d.mu.Lock()
 	defer d.mu.Unlock()
 	out := append([]*readGate(nil), d.parkedReads...)
-	sort.SliceStable(out, func(i, j int) bool { return out[i].stream < out[j].stream })
+	sort.SliceStable(out, func(i, j int) bool {
+		if out[i].stream != out[j].stream {
+			return out[i].stream < out[j].stream
+		}
+		return out[i].kind < out[j].kind
+	})
 	return out
 }
 
@@ -705,25 +723,47 @@ func (d *Daemon) ReleaseRead(g *readGate) {
 	close(g.ch)
 }
 
+// park blocks the calling Read or Close until the scheduler releases it (GateReads mode).
+func (s *SimStream) park(kind int) {
+	d := s.d
+	d.mu.Lock()
+	idx := -1
+	for i, st := range d.Streams {
+		if st == s {
+			idx = i
+		}
+	}
+	g := &readGate{ch: make(chan struct{}), stream: idx, kind: kind}
+	d.parkedReads = append(d.parkedReads, g)
+	d.mu.Unlock()
+	select {
+	case d.arrival <- struct{}{}:
+	default:
+	}
+	<-g.ch
+}
+
+// MarkReturn is called by the evaluation's own goroutine the moment evaluation returns:
+// readers that are open right now were not "closed by the time evaluation returns".
+// Only meaningful (and only recorded) when Close calls are under the scheduler.
+func (d *Daemon) MarkReturn() {
+	d.mu.Lock()
+	defer d.mu.Unlock()
+	if !d.variant.GateReads || d.noSleep {
+		return
+	}
+	for _, s := range d.Streams {
+		if !s.closed {
+			s.Info.OpenAtReturn = true
+		}
+	}
+}
+
 // Read implements io.Reader.
 func (s *SimStream) Read(p []byte) (int, error) {
 	d := s.d
 	if d.variant.GateReads && !d.noSleep {
-		d.mu.Lock()
-		idx := -1
-		for i, st := range d.Streams {
-			if st == s {
-				idx = i
-			}
-		}
-		g := &readGate{ch: make(chan struct{}), stream: idx}
-		d.parkedReads = append(d.parkedReads, g)
-		d.mu.Unlock()
-		select {
-		case d.arrival <- struct{}{}:
-		default:
-		}
-		<-g.ch
+		s.park(0)
 	}
 	d.mu.Lock()
 	if s.closed {
@@ -869,6 +909,12 @@ func (s *SimStream) Read(p []byte) (int, error) {
 // Close implements io.Closer.
 func (s *SimStream) Close() error {
 	d := s.d
+	if d.variant.GateReads && !d.noSleep {
+		// A Close is a request like any other: it completes when the scheduler says so.
+		// A Close issued by a goroutine nobody waits for therefore cannot slip in
+		// between the end of the evaluation and the moment the readers are counted.
+		s.park(1)
+	}
 	d.mu.Lock()
 	defer d.mu.Unlock()
 	s.closed = true
